@@ -6,23 +6,31 @@
 
    * values: primitives, objects with an identity (returned by probes), literal
      objects (no identity), symbols, functions;
-   * a probe is a zero-argument call of an identifier: it appends its
-     identifier to the trace and returns what the oracle says for (identifier,
-     time) -- two calls of the same probe may return different things;
+   * every operation that can run user code is a parameter of the WORLD and may
+     emit any trace and complete normally or abruptly, as a function of its
+     operands and of the time (length of the trace so far): calls, new,
+     property reads (getters, Proxy traps), ToPropertyKey, ToString in template
+     literals, spread/iteration, unary + - ~, arithmetic/relational/equality
+     operators on arbitrary operands.  Two evaluations of the same operation
+     at different times may differ;
    * reading a bound identifier is pure (exclusions NoTDZ / ReadsArePure of the
      property); reading an unbound one throws ReferenceError unless the global
      exists; typeof of an unbound identifier never throws;
    * operators that may run user code (valueOf/toString of objects) or whose
      numeric result is not needed by any rewrite are section parameters
      [un_sem], [bin_sem]: every theorem holds for all of them;
-   * constructs outside the fragment evaluate to None and are excluded from the
-     theorems' hypotheses (eval e = Some _). *)
+   * covered: every constructor of Tree.expr except class expressions,
+     assignments, ++/--, delete and optional chains (oc <> 0): those evaluate to
+     None and are excluded from the theorems' hypotheses (eval e = Some _);
+   * the receiver (this) of a method call is not tracked: the callee value
+     returned by the property read stands for the bound method. *)
 From V Require Import Common.Base C03.Num C03.Tree.
 
 Inductive value :=
 | VUndef | VNull | VBool (b : bool) | VNum (n : num) | VBig (z : Z) | VStr (s : list Z)
 | VObj (id : Z)        (* object with identity (from a probe) *)
-| VObjLit              (* object created by a literal: [] {} /re/ *)
+| VObjLit              (* object created by a literal: {} /re/ *)
+| VArr                 (* array created by a literal *)
 | VFun                 (* function created by a literal *)
 | VSym (id : Z).
 
@@ -55,7 +63,7 @@ Definition s_ReferenceError : list Z := [82; 101; 102; 101; 114; 101; 110; 99; 1
 Definition typeof_value (v : value) : list Z :=
   match v with
   | VUndef => s_undefined | VNull => s_object | VBool _ => s_boolean | VNum _ => s_number
-  | VBig _ => s_bigint | VStr _ => s_string | VObj _ | VObjLit => s_object | VFun => s_function
+  | VBig _ => s_bigint | VStr _ => s_string | VObj _ | VObjLit | VArr => s_object | VFun => s_function
   | VSym _ => s_symbol
   end.
 
@@ -70,8 +78,8 @@ Definition strict_eq (a b : value) : option bool :=
   | VStr x, VStr y => Some (zlist_eqb x y)
   | VObj x, VObj y => Some (x =? y)
   | VSym x, VSym y => Some (x =? y)
-  | (VObjLit | VFun), (VObjLit | VFun | VObj _) => None
-  | VObj _, (VObjLit | VFun) => None
+  | (VObjLit | VArr | VFun), (VObjLit | VArr | VFun | VObj _) => None
+  | VObj _, (VObjLit | VArr | VFun) => None
   | _, _ => Some false
   end.
 
@@ -88,19 +96,42 @@ Definition big_value (s : list Z) : option Z :=
   | c :: _ => if c =? 48 then None else dec_value s 0      (* leading 0: radix literal or invalid *)
   end.
 
+(* The world: everything esbuild cannot see. *)
+Record world := {
+  w_unbound : Z -> bool;              (* esbuild's view: identifier not declared in the code *)
+  w_lenv : Z -> value;                (* declared identifiers: always readable (NoTDZ) *)
+  w_this : value;
+  w_genv : Z -> option value;         (* globals: None = does not exist *)
+  w_un : unop -> value -> nat -> trace * outcome;              (* + - ~ *)
+  w_bin : binop -> value -> value -> nat -> trace * outcome;   (* arithmetic, relational, ==, in, instanceof *)
+  w_call : value -> list value -> nat -> trace * outcome;      (* callee, arguments *)
+  w_new : value -> list value -> nat -> trace * outcome;
+  w_get : value -> value -> nat -> trace * outcome;            (* object, primitive key: getters / traps *)
+  w_tokey : value -> nat -> trace * outcome;                   (* ToPropertyKey *)
+  w_tostr : value -> nat -> trace * outcome;                   (* ToString of a template substitution *)
+  w_spread : value -> nat -> trace * outcome                   (* iteration / CopyDataProperties of a spread operand *)
+}.
+
+Inductive lres := LVals (vs : list value) | LThrow (x : value).
+
 Section Semantics.
-  (* the world *)
-  Variable unbound : Z -> bool.              (* esbuild's view: identifier not declared in the code *)
-  Variable lenv : Z -> value.                (* declared identifiers: always readable (NoTDZ) *)
-  Variable genv : Z -> option value.         (* globals: None = does not exist *)
-  Variable oracle : Z -> nat -> outcome.     (* result of probe r called at time t *)
-  Variable un_sem : unop -> value -> nat -> trace * outcome.             (* + - ~ on any value *)
-  Variable bin_sem : binop -> value -> value -> nat -> trace * outcome.  (* arithmetic, relational, ==, in, instanceof *)
+  Variable W : world.
 
   Definition bind (r : option (trace * outcome)) (k : trace -> value -> option (trace * outcome)) : option (trace * outcome) :=
     match r with
     | Some (tr, Val v) => k tr v
     | Some (tr, Throw x) => Some (tr, Throw x)
+    | None => None
+    end.
+
+  (* an effectful step of the world performed at the current time *)
+  Definition eff (tr : trace) (f : nat -> trace * outcome) : option (trace * outcome) :=
+    let '(t2, o) := f (length tr) in Some (tr ++ t2, o).
+
+  Definition lbind (r : option (trace * lres)) (k : trace -> list value -> option (trace * outcome)) : option (trace * outcome) :=
+    match r with
+    | Some (tr, LVals vs) => k tr vs
+    | Some (tr, LThrow x) => Some (tr, Throw x)
     | None => None
     end.
 
@@ -119,39 +150,141 @@ Section Semantics.
     end.
 
   Definition apply_bin (op : binop) (tr : trace) (a b : value) : option (trace * outcome) :=
-    let '(t2, o) := bin_sem op a b (length tr) in Some (tr ++ t2, o).
+    eff tr (w_bin W op a b).
+
+  Definition is_object (v : value) : bool :=
+    match v with VObj _ | VObjLit | VArr | VFun => true | _ => false end.
+
+  (* a + b: a symbol operand that survives ToPrimitive makes ToString/ToNumber
+     throw a TypeError (7.1.17, 7.1.4); everything else is the world's *)
+  Definition add_values (tr : trace) (x y : value) : option (trace * outcome) :=
+    if is_object x || is_object y then apply_bin BAdd tr x y
+    else match x, y with
+         | VSym _, _ | _, VSym _ => Some (tr, Throw (VStr s_TypeError))
+         | _, _ => apply_bin BAdd tr x y
+         end.
+
+  (* one step of a list evaluation: run k on an element, accumulate *)
+  Definition lstep (r : option (trace * outcome)) (acc : list value)
+             (k : trace -> list value -> option (trace * lres)) : option (trace * lres) :=
+    match r with
+    | Some (tr, Val v) => k tr (acc ++ [v])
+    | Some (tr, Throw x) => Some (tr, LThrow x)
+    | None => None
+    end.
+
+  Notation evaluator := (trace -> expr -> option (trace * outcome)).
+
+  (* call / new arguments and array items: left to right; a spread operand is
+     evaluated and then iterated by the world; holes are skipped *)
+  Fixpoint eval_items_with (ev : evaluator) (tr : trace) (l : list expr) (acc : list value) {struct l}
+    : option (trace * lres) :=
+    match l with
+    | [] => Some (tr, LVals acc)
+    | x :: r =>
+        match x with
+        | ESpread v => lstep (bind (ev tr v) (fun tr1 xv => eff tr1 (w_spread W xv))) acc
+                             (fun tr2 acc2 => eval_items_with ev tr2 r acc2)
+        | EMissing => eval_items_with ev tr r acc
+        | _ => lstep (ev tr x) acc (fun tr2 acc2 => eval_items_with ev tr2 r acc2)
+        end
+    end.
+
+  (* object literal properties: kind 1 = spread (CopyDataProperties runs
+     getters), computed keys go through ToPropertyKey *)
+  Fixpoint eval_props_with (ev : evaluator) (tr : trace) (l : list (Z * bool * expr * expr)) {struct l}
+    : option (trace * outcome) :=
+    match l with
+    | [] => Some (tr, Val VObjLit)
+    | (kind, computed, key, value) :: r =>
+        if kind =? 1 then
+          bind (ev tr value) (fun tr1 xv => bind (eff tr1 (w_spread W xv)) (fun tr2 _ => eval_props_with ev tr2 r))
+        else if computed then
+          bind (ev tr key) (fun tr1 kv => bind (eff tr1 (w_tokey W kv)) (fun tr2 _ =>
+            bind (ev tr2 value) (fun tr3 _ => eval_props_with ev tr3 r)))
+        else bind (ev tr value) (fun tr1 _ => eval_props_with ev tr1 r)
+    end.
+
+  (* template literal: every substitution is evaluated and converted by ToString *)
+  Fixpoint eval_parts_with (ev : evaluator) (tr : trace) (l : list (expr * list Z)) (acc : list Z) {struct l}
+    : option (trace * outcome) :=
+    match l with
+    | [] => Some (tr, Val (VStr acc))
+    | (v, tail) :: r =>
+        bind (ev tr v) (fun tr1 x => bind (eff tr1 (w_tostr W x)) (fun tr2 sv =>
+          match sv with
+          | VStr s => eval_parts_with ev tr2 r (acc ++ s ++ tail)
+          | _ => None                      (* ToString yields a string *)
+          end))
+    end.
 
   Fixpoint eval (tr : trace) (e : expr) {struct e} : option (trace * outcome) :=
+    let eval_items :=
+      fix go (tr : trace) (l : list expr) (acc : list value) {struct l} : option (trace * lres) :=
+        match l with
+        | [] => Some (tr, LVals acc)
+        | x :: r =>
+            match x with
+            | ESpread v => lstep (bind (eval tr v) (fun tr1 xv => eff tr1 (w_spread W xv))) acc (fun tr2 acc2 => go tr2 r acc2)
+            | EMissing => go tr r acc
+            | _ => lstep (eval tr x) acc (fun tr2 acc2 => go tr2 r acc2)
+            end
+        end in
     match e with
     | ENull => Some (tr, Val VNull)
     | EUndefined => Some (tr, Val VUndef)
+    | EThis => Some (tr, Val (w_this W))
     | EBool b => Some (tr, Val (VBool b))
     | ENum n => Some (tr, Val (VNum n))
     | EBig s => match big_value s with Some z => Some (tr, Val (VBig z)) | None => None end
     | EStr s => Some (tr, Val (VStr s))
     | ERegExp _ => Some (tr, Val VObjLit)
     | EFunc _ | EArrow _ => Some (tr, Val VFun)
-    | EArray [] => Some (tr, Val VObjLit)
-    | EObject [] => Some (tr, Val VObjLit)
-    | EObject [(0, true, k, v)] =>
-        (* { [k]: v }: evaluate k, ToPropertyKey (a symbol is a valid key; an
-           object key would run toString: outside the fragment), evaluate v *)
-        bind (eval tr k) (fun tr1 kv =>
-          match kv with
-          | VObj _ | VObjLit | VFun => None
-          | _ => bind (eval tr1 v) (fun tr2 _ => Some (tr2, Val VObjLit))
-          end)
     | EId ref _ _ =>
-        if unbound ref then
-          match genv ref with
+        if w_unbound W ref then
+          match w_genv W ref with
           | Some v => Some (tr, Val v)
           | None => Some (tr, Throw (VStr s_ReferenceError))
           end
-        else Some (tr, Val (lenv ref))
-    | ECall (EId ref _ _) [] 0 false =>
-        (* probe *)
-        Some (tr ++ [ref], oracle ref (length tr))
-    | EAnnot v false => eval tr v
+        else Some (tr, Val (w_lenv W ref))
+    | EDot t name oc _ _ =>
+        if oc =? 0 then bind (eval tr t) (fun tr1 ov => eff tr1 (w_get W ov (VStr name))) else None
+    | EIndex t i oc =>
+        if oc =? 0 then
+          bind (eval tr t) (fun tr1 ov => bind (eval tr1 i) (fun tr2 kv =>
+            bind (eff tr2 (w_tokey W kv)) (fun tr3 key => eff tr3 (w_get W ov key))))
+        else None
+    | ECall t args oc _ =>
+        if oc =? 0 then
+          bind (eval tr t) (fun tr1 fv => lbind (eval_items tr1 args []) (fun tr2 vs => eff tr2 (w_call W fv vs)))
+        else None
+    | ENew t args _ =>
+        bind (eval tr t) (fun tr1 fv => lbind (eval_items tr1 args []) (fun tr2 vs => eff tr2 (w_new W fv vs)))
+    | EArray items => lbind (eval_items tr items []) (fun tr1 _ => Some (tr1, Val VArr))
+    | EObject props =>
+        (fix go (tr : trace) (l : list (Z * bool * expr * expr)) {struct l} : option (trace * outcome) :=
+           match l with
+           | [] => Some (tr, Val VObjLit)
+           | (kind, computed, key, value) :: r =>
+               if kind =? 1 then
+                 bind (eval tr value) (fun tr1 xv => bind (eff tr1 (w_spread W xv)) (fun tr2 _ => go tr2 r))
+               else if computed then
+                 bind (eval tr key) (fun tr1 kv => bind (eff tr1 (w_tokey W kv)) (fun tr2 _ =>
+                   bind (eval tr2 value) (fun tr3 _ => go tr3 r)))
+               else bind (eval tr value) (fun tr1 _ => go tr1 r)
+           end) tr props
+    | ETemplate head parts =>
+        (fix go (tr : trace) (l : list (expr * list Z)) (acc : list Z) {struct l} : option (trace * outcome) :=
+           match l with
+           | [] => Some (tr, Val (VStr acc))
+           | (v, tail) :: r =>
+               bind (eval tr v) (fun tr1 x => bind (eff tr1 (w_tostr W x)) (fun tr2 sv =>
+                 match sv with
+                 | VStr s => go tr2 r (acc ++ s ++ tail)
+                 | _ => None
+                 end))
+           end) tr parts head
+    | EAnnot v _ => eval tr v
     | EInlinedEnum v => eval tr v
     | EUn op v w =>
         match op with
@@ -160,16 +293,15 @@ Section Semantics.
         | UTypeof =>
             match v with
             | EId ref _ _ =>
-                if unbound ref then
-                  match genv ref with
+                if w_unbound W ref then
+                  match w_genv W ref with
                   | Some x => Some (tr, Val (VStr (typeof_value x)))
                   | None => Some (tr, Val (VStr s_undefined))
                   end
-                else Some (tr, Val (VStr (typeof_value (lenv ref))))
+                else Some (tr, Val (VStr (typeof_value (w_lenv W ref))))
             | _ => bind (eval tr v) (fun tr1 x => Some (tr1, Val (VStr (typeof_value x))))
             end
-        | UPos | UNeg | UCpl =>
-            bind (eval tr v) (fun tr1 x => let '(t2, o) := un_sem op x (length tr1) in Some (tr1 ++ t2, o))
+        | UPos | UNeg | UCpl => bind (eval tr v) (fun tr1 x => eff tr1 (w_un W op x))
         | _ => None
         end
     | EBin op l r =>
@@ -189,16 +321,7 @@ Section Semantics.
         | BLooseNe =>
             neg_outcome (bind (eval tr l) (fun tr1 x => bind (eval tr1 r) (fun tr2 y => apply_bin BLooseEq tr2 x y)))
         | BAdd =>
-            bind (eval tr l) (fun tr1 x => bind (eval tr1 r) (fun tr2 y =>
-              match x, y with
-              | VSym _, _ | _, VSym _ =>
-                  (* 7.1.1 ToPrimitive leaves a symbol; 7.1.17 ToString / 7.1.4 ToNumber of a symbol throw a TypeError *)
-                  match x, y with
-                  | (VObj _ | VObjLit | VFun), _ | _, (VObj _ | VObjLit | VFun) => apply_bin BAdd tr2 x y
-                  | _, _ => Some (tr2, Throw (VStr s_TypeError))
-                  end
-              | _, _ => apply_bin BAdd tr2 x y
-              end))
+            bind (eval tr l) (fun tr1 x => bind (eval tr1 r) (fun tr2 y => add_values tr2 x y))
         | _ =>
             if is_sem_binop op then
               bind (eval tr l) (fun tr1 x => bind (eval tr1 r) (fun tr2 y => apply_bin op tr2 x y))
@@ -208,6 +331,64 @@ Section Semantics.
         bind (eval tr t) (fun tr1 x => if truthy x then eval tr1 y else eval tr1 n)
     | _ => None
     end.
+
+  (* the local list evaluators of [eval] are the named ones *)
+  Lemma eval_array_eq : forall items tr,
+    eval tr (EArray items) = lbind (eval_items_with eval tr items []) (fun tr1 _ => Some (tr1, Val VArr)).
+  Proof.
+    intros items tr. cbn [eval]. f_equal. generalize (@nil value). revert tr.
+    induction items as [|x r IH]; intros tr acc; [reflexivity|].
+    cbn [eval_items_with]. destruct x; try (unfold lstep; destruct (eval tr _) as [[t [v|v]]|]; try reflexivity; apply IH).
+    - apply IH.
+    - unfold lstep. destruct (bind _ _) as [[t [v|v]]|]; try reflexivity. apply IH.
+  Qed.
+
+  Lemma eval_call_eq : forall t args oc p tr,
+    eval tr (ECall t args oc p) =
+    if oc =? 0 then bind (eval tr t) (fun tr1 fv => lbind (eval_items_with eval tr1 args []) (fun tr2 vs => eff tr2 (w_call W fv vs)))
+    else None.
+  Proof.
+    intros t args oc p tr. cbn [eval]. destruct (oc =? 0); [|reflexivity].
+    destruct (eval tr t) as [[tr1 [fv|x]]|]; cbn [bind]; try reflexivity. f_equal.
+    generalize (@nil value). generalize tr1.
+    induction args as [|x r IH]; intros tr0 acc; [reflexivity|].
+    cbn [eval_items_with]. destruct x; try (unfold lstep; destruct (eval tr0 _) as [[t0 [v|v]]|]; try reflexivity; apply IH).
+    - apply IH.
+    - unfold lstep. destruct (bind _ _) as [[t0 [v|v]]|]; try reflexivity. apply IH.
+  Qed.
+
+  Lemma eval_new_eq : forall t args p tr,
+    eval tr (ENew t args p) =
+    bind (eval tr t) (fun tr1 fv => lbind (eval_items_with eval tr1 args []) (fun tr2 vs => eff tr2 (w_new W fv vs))).
+  Proof.
+    intros t args p tr. cbn [eval].
+    destruct (eval tr t) as [[tr1 [fv|x]]|]; cbn [bind]; try reflexivity. f_equal.
+    generalize (@nil value). generalize tr1.
+    induction args as [|x r IH]; intros tr0 acc; [reflexivity|].
+    cbn [eval_items_with]. destruct x; try (unfold lstep; destruct (eval tr0 _) as [[t0 [v|v]]|]; try reflexivity; apply IH).
+    - apply IH.
+    - unfold lstep. destruct (bind _ _) as [[t0 [v|v]]|]; try reflexivity. apply IH.
+  Qed.
+
+  Lemma bind_ext : forall r k1 k2, (forall t v, k1 t v = k2 t v) -> bind r k1 = bind r k2.
+  Proof. intros [[t [v|x]]|] k1 k2 H; cbn; auto. Qed.
+
+  Lemma eval_object_eq : forall props tr, eval tr (EObject props) = eval_props_with eval tr props.
+  Proof.
+    intros props tr. cbn [eval]. revert tr.
+    induction props as [|[[[kind computed] key] value] r IH]; intros tr; [reflexivity|].
+    cbn [eval_props_with]. destruct (kind =? 1); [|destruct computed].
+    - apply bind_ext; intros. apply bind_ext; intros. apply IH.
+    - apply bind_ext; intros. apply bind_ext; intros. apply bind_ext; intros. apply IH.
+    - apply bind_ext; intros. apply IH.
+  Qed.
+
+  Lemma eval_template_eq : forall head parts tr, eval tr (ETemplate head parts) = eval_parts_with eval tr parts head.
+  Proof.
+    intros head parts tr. cbn [eval]. revert tr head.
+    induction parts as [|[v tail] r IH]; intros tr head; [reflexivity|].
+    cbn [eval_parts_with]. apply bind_ext; intros. apply bind_ext; intros t1 sv. destruct sv; try reflexivity. apply IH.
+  Qed.
 
   (* evaluation of a possibly removed expression statement *)
   Definition eval_unused (tr : trace) (r : ures) : option (trace * outcome) :=
